@@ -441,6 +441,22 @@ def judge(ctx, case):
         got = a.get("ok", {}).get("unlocking", {})
         if got.get("ok") != exp.hex():
             ctx.viol("address does not accept its own public key when building the unlocking script (%s)" % cls, {"got": str(got)[:200], "exp": exp.hex()[:60]})
+        # the same with a signature object as Transaction::sign hands it out (recovery info + signed preimage inside), made by a key
+        # object in the same and in the other compression form than the public key bytes: the address still accepts its own key
+        for kc in (case["compressed"], not case["compressed"]):
+            a4 = ctx.call({"op": "addr", "hash": h160.hex(), "prefix": p, "unlock_pub": pub.hex(), "unlock_sig": sig.hex(), "unlock_key": case["x"], "unlock_key_compressed": kc, "unlock_legacy": bool(case["flag"] & 0x40 == 0)})
+            ctx.ev()
+            us = a4.get("ok", {}).get("unlocking_signed", {})
+            if "ok" in us:
+                ctx.hit("unlock_with_transaction_signature")
+                if kc != case["compressed"]:
+                    ctx.hit("unlock_signer_object_in_other_form")
+                o4 = us["ok"]
+                exp4 = wire.minimal_push(bytes.fromhex(o4["sig"])) + wire.minimal_push(pub)
+                if o4.get("script") != exp4.hex():
+                    ctx.viol("address does not accept its own public key when building the unlocking script from a Transaction::sign signature (%s, signer object %s)" % (cls, "in the same form" if kc == case["compressed"] else "in the other compression form"), {"got": str(o4)[:300]})
+            elif "panic" in us:
+                ctx.viol("building an unlocking script from a Transaction::sign signature panics", {"resp": str(us)[:200]})
         if hashes.hash160(other) != h160:
             a2 = ctx.call({"op": "addr", "hash": h160.hex(), "prefix": p, "unlock_pub": other.hex(), "unlock_sig": sig.hex()})
             ctx.ev()
